@@ -72,11 +72,25 @@ def gen(seed: int, tier: str) -> dict[str, Any]:
             op["off"] = rng.choice([-0.0005, -1e-6, 0.0, 0.0, 1e-6, 0.0005, 0.0015])
             op["iters"] = rng.choice([0, 1, 2, 3])
         ops.append(op)
+    if mode == "bare" and rng.random() < 0.12:
+        # the user disconnects while a send is under way towards a gateway that has gone silent: (a) the send waits for its
+        # acknowledgement - its repetition falls due while disconnect() waits for the DisconnectResponse; (b) two missing
+        # acknowledgements have started a reconnect whose own DisconnectRequest goes unanswered, a second send is parked behind
+        # that reconnect and the user's disconnect() releases it
+        t = round(rng.uniform(0.05, max(0.1, horizon - 4.0)), 6)
+        ops.append({"t": t, "op": "gw_crash"})
+        ops.append({"t": round(t + 0.01, 6), "op": "send"})
+        if rng.random() < 0.5:
+            ops.append({"t": round(t + 0.01 + rng.choice([0.2, 0.5, 0.9, 0.999]), 6), "op": "user_disconnect"})
+        else:
+            t2 = t + 0.01 + 2.0 + rng.choice([0.05, 0.3, 0.7])
+            ops.append({"t": round(t2, 6), "op": "send"})
+            ops.append({"t": round(t2 + rng.choice([0.01, 0.1, 0.2]), 6), "op": "user_disconnect"})
     if mode == "xknx":
         ops = [o for o in ops if o["op"] not in ("send", "send_cancel")]
     # user disconnect
     ud = rng.random()
-    if ud < 0.55 and not any(o["op"] == "cross" for o in ops):
+    if ud < 0.55 and not any(o["op"] in ("cross", "user_disconnect") for o in ops):
         # near another op (inside an in-flight phase) or anywhere
         if ops and rng.random() < 0.6:
             base = rng.choice(ops)["t"]
@@ -424,6 +438,8 @@ def oracle(R: Run, plan, info, traces, udp):
     connect_res_ok: list[tuple[int, float]] = []
     any_connect_res: list[tuple[int, float]] = []
     after_disc: list[str] = []
+    behind_disc_req: list[str] = []
+    user_disc_frame = [False]
     tcp_pending = 0
     tcp_open = 0
     disc_ret = info["disc_ret"]
@@ -442,6 +458,14 @@ def oracle(R: Run, plan, info, traces, udp):
                     abstract.append(("out", name))
                     if disc_ret is not None and n > disc_ret:
                         after_disc.append(f"{name}")
+                    if (cfg["mode"] == "bare" and info["disc_call"] is not None and n > info["disc_call"]
+                            and info["disc_call"] != info["disc_ret"]):
+                        # the tunnel's own disconnect() was called: it closes the channel with its DisconnectRequest - from
+                        # there on only that handshake and acknowledgements of frames still arriving may leave the client
+                        if h[0] == W.DISCONNECT_REQ:
+                            user_disc_frame[0] = True
+                        elif user_disc_frame[0] and h[0] in (W.TUNNEL_REQ, W.CONNECT_REQ, W.CONNSTATE_REQ):
+                            behind_disc_req.append(name)
                     if h[0] == W.CONNECT_REQ:
                         connect_reqs.append((n, t))
                 else:
@@ -479,6 +503,9 @@ def oracle(R: Run, plan, info, traces, udp):
             continue
         R.violate("C25.one-reconnect-at-a-time", "overlapping-connect-requests",
                   f"ConnectRequests at {t1:.6f} and {t2:.6f} with no response in between")
+    if behind_disc_req:
+        R.violate("C25.nothing-after-disconnect", "sent-behind-own-disconnect-request:" + behind_disc_req[0],
+                  f"after disconnect() was called and its DisconnectRequest had left, the client still sent {behind_disc_req[:6]}")
     # (b) after the user's disconnect returned
     if disc_ret is not None:
         if after_disc:
